@@ -27,7 +27,7 @@ def closure_cells(fn):
     return out
 
 
-def snapshot(obj, *, skip=(), _depth=0, _seen=None):
+def snapshot(obj, *, skip=(), _depth=0, _seen=None, _top=False):
     if _depth > 60:
         return "<too deep>"
     if _seen is None:
@@ -50,7 +50,7 @@ def snapshot(obj, *, skip=(), _depth=0, _seen=None):
         # named, shared entities (a parameter used by several containers, a nested container) are expanded once
         if type(obj).__name__ in ("Parameter", "SequenceContainer") or type(obj).__name__.endswith("ParameterType"):
             key = id(obj)
-            if key in _seen:
+            if key in _seen and not _top:
                 return ("ref", type(obj).__name__, getattr(obj, "name", None))
             _seen[key] = True
         if dataclasses.is_dataclass(obj):
@@ -92,13 +92,16 @@ def public_state(defn):
 
 
 def definition_snapshot(defn, *, skip_namespace=False):
-    """types / parameters / containers of a definition, dictionary order kept"""
+    """types / parameters / containers of a definition, by name"""
     skip = NAMESPACE_BOOKKEEPING if skip_namespace else ()
-    seen = {}
+    # every entity the dictionaries hold is expanded exactly once, under its name at the top level; wherever else it occurs (entry lists, a
+    # parameter's type) it is a reference by name - so the snapshot does not depend on the order in which the graph happens to be walked, and
+    # the dictionaries are compared by name (the order of a definition's dictionaries carries no meaning; inheritor and entry lists keep theirs)
+    seen = {id(v): True for d in (defn.parameter_types, defn.parameters, defn.containers) for v in d.values()}
     return {
-        "parameter_types": tuple((k, snapshot(v, _seen=seen)) for k, v in defn.parameter_types.items()),
-        "parameters": tuple((k, snapshot(v, _seen=seen)) for k, v in defn.parameters.items()),
-        "containers": tuple((k, snapshot(v, _seen=seen)) for k, v in defn.containers.items()),
+        "parameter_types": tuple(sorted(((k, snapshot(v, _seen=seen, _top=True)) for k, v in defn.parameter_types.items()), key=lambda kv: str(kv[0]))),
+        "parameters": tuple(sorted(((k, snapshot(v, _seen=seen, _top=True)) for k, v in defn.parameters.items()), key=lambda kv: str(kv[0]))),
+        "containers": tuple(sorted(((k, snapshot(v, _seen=seen, _top=True)) for k, v in defn.containers.items()), key=lambda kv: str(kv[0]))),
         "meta": tuple((k, snapshot(getattr(defn, k))) for k in ("root_container_name", "space_system_name", "validation_status", "xtce_version", "date",
                                                                  "ns", "xtce_schema_uri", "xtce_ns_prefix") if k not in skip),
         # anything else that lives on the definition object (state a parser might leave behind)
